@@ -70,3 +70,19 @@ func VerifC16_ed25519_sign_verify() {
 	vAssert(vBytesEq(priv, privSnap), "private-key-unchanged-by-sign-and-verify")
 	vReach("sign-verify")
 }
+
+// key derivation leaves the caller's seed buffer alone whatever spare capacity it has (enough for
+// a whole private key to be appended in place, in particular)
+func VerifC16_ed25519_new_key_keeps_seed_buffer() {
+	vUnwind(140)
+	vUseModels("edabs")
+	seed := c16Buf("seed", 32, 64)
+	s1 := c16Snapshot(seed)
+	priv := NewKeyFromSeed(seed)
+	vAssert(vBytesEq(c16Whole(seed), s1), "seed-and-its-spare-capacity-unchanged")
+	vAssert(vBytesEq(priv[:32], seed), "private-key-starts-with-the-seed")
+	// and the key does not share memory with the seed buffer
+	seed[0] ^= 0xff
+	vAssert(priv[0] == seed[0]^0xff, "private-key-does-not-alias-the-seed")
+	vReach("derived")
+}
